@@ -13,6 +13,8 @@ Leg C: oracle, in Python, on the implementation's observations only: every buffe
        oldest-first removal by the observed created() stamps."""
 import calendar
 import datetime
+import glob
+import hashlib
 import json
 import os
 import re
@@ -176,7 +178,7 @@ def gen_case_x(rng, cid):
     return dict(cfg, id=cid, t0=t0, pre=gen_pre(rng, cfg, t0), ops=ops, threads=1)
 
 
-def gen_case_s(rng, cid, template=None):
+def gen_case_s(rng, cid, template=None, yield0=False):
     cfg = gen_config(rng, "s")
     if cfg["rot"] == "n" and rng.random() < 0.7:
         cfg["rot"] = rng.choice(["m", "h", "d"])
@@ -205,6 +207,30 @@ def gen_case_s(rng, cid, template=None):
             t = t + rng.randint(0, max(1, (P - t % P) - 1)) if rng.random() < 0.7 else next_time(rng, cfg["rot"], t, False)
             t = clamp(t)
             ops.append(["w", rng.randrange(nth), t, mkbuf(k, rng).hex()]); k += 1
+    if template == "casrace" and cfg["rot"] != "n":
+        # (hook H1b) thread a is preempted between should_rollover and advance_date at boundary b1; another thread
+        # rotates (the same boundary, or a later one); a's compare_exchange then runs: it must fail
+        b1 = (t0 // P + 1) * P
+        t1 = b1 + rng.randint(0, P - 1)
+        a, b = rng.sample(range(nth), 2)
+        ops.append(["park0", a, t1, mkbuf(k, rng).hex()]); k += 1
+        if rng.random() < 0.3:
+            # nobody interferes: a's own compare_exchange wins on release
+            ops.append(["rel", a])
+            t = t1
+        else:
+            t2 = b1 + (rng.randint(0, P - 1) if rng.random() < 0.6 else rng.randint(1, 3) * P + rng.randint(0, P - 1))
+            if rng.random() < 0.5:
+                ops.append(["w", b, t2, mkbuf(k, rng).hex()]); k += 1
+                ops.append(["rel", a])
+            else:
+                ops.append(["park", b, t2, mkbuf(k, rng).hex()]); k += 1
+                ops.append(["rel", a])
+                ops.append(["rel", b])
+            t = max(t1, t2)
+        for _ in range(rng.randint(1, 3)):
+            t = clamp(t + rng.randint(0, max(1, (P - t % P) - 1)) if rng.random() < 0.7 else next_time(rng, cfg["rot"], t, False))
+            ops.append(["w", rng.randrange(nth), t, mkbuf(k, rng).hex()]); k += 1
     for _ in range(rng.randint(2, 10)):
         free = [i for i in range(nth) if i not in parked]
         r = rng.random()
@@ -216,7 +242,7 @@ def gen_case_s(rng, cid, template=None):
         t = clamp(next_time(rng, cfg["rot"], t, allow_back=rng.random() < 0.5))
         th = rng.choice(free)
         if r < 0.45 and len(free) > 1:
-            ops.append(["park", th, t, mkbuf(k, rng).hex()])
+            ops.append(["park0" if (yield0 and rng.random() < 0.4) else "park", th, t, mkbuf(k, rng).hex()])
             parked.add(th)
         else:
             ops.append(["w", th, t, mkbuf(k, rng).hex()])
@@ -307,6 +333,8 @@ def coq_case(case, recheck):
             hs.append("HW %d%%nat (%d)%%Z %s" % (op[1], op[2], coq_chunk(op[3])))
         elif op[0] == "park":
             hs.append("HPark %d%%nat (%d)%%Z %s" % (op[1], op[2], coq_chunk(op[3])))
+        elif op[0] == "park0":
+            hs.append("HPark0 %d%%nat (%d)%%Z %s" % (op[1], op[2], coq_chunk(op[3])))
         else:
             hs.append("HRel %d%%nat" % op[1])
     return head + "(observe s0, obs_trace_h c s0 [%s])" % "; ".join(hs)
@@ -375,45 +403,77 @@ class Oracle:
             kind = op[0]
             completes = []              # (t, buf, th, clean, nondecr, started_step)
             refresh_ran = False
-            if kind in ("w", "park"):
+            if kind in ("w", "park", "park0"):
                 th, t, buf = op[1] % max(1, case["threads"]), op[2], bytes.fromhex(op[3])
                 crossing = exp_next is not None and t >= exp_next
                 nondecr = t >= maxt
                 maxt = max(maxt, t)
-                others_pending = [p for q, p in pending.items() if q != th]
+                # threads between a won compare_exchange and their refresh_writer (parked at yield point 1)
+                others_pending = [p for q, p in pending.items() if q != th and p["stage"] == 1]
                 clean = not others_pending
-                if shared:
-                    if st["rot"] != (1 if crossing else 0):
-                        self.fail("clock %d %s the boundary %s but %d rotation(s) were elected" % (
-                            t, "reaches" if crossing else "is before", exp_next, st["rot"]), k)
-                    if crossing:
-                        for q, p in pending.items():
-                            if q != th:
-                                p["dirty"] = True
-                                if rnd(rot, t) > rnd(rot, p["t"]):
-                                    p["overtaken"] = t
-                if crossing:
-                    exp_next = rnd(rot, t) + PER[rot]
-                if kind == "park" and st.get("parked"):
+                if kind == "park0" and st.get("parked"):
+                    # at yield point 0: should_rollover said Some(next_date); nothing has been elected yet
                     if not crossing:
-                        self.fail("a thread reached the rotation path without crossing a boundary", k)
-                    pending[th] = {"k": k, "t": t, "buf": buf, "dirty": not clean, "nondecr": nondecr}
+                        self.fail("should_rollover reported a rollover although clock %d is before the boundary %s" % (t, exp_next), k)
+                    if st["rot"] != 0:
+                        self.fail("%d rotation(s) elected before the thread's compare_exchange" % st["rot"], k)
+                    pending[th] = {"k": k, "t": t, "buf": buf, "dirty": not clean, "nondecr": nondecr, "stage": 0, "n0": exp_next}
                 else:
-                    if kind == "park" and crossing and shared:
-                        self.fail("a boundary-crossing make_writer did not pass through the rotation path", k)
-                    completes.append((t, buf, th, clean, nondecr, k))
-                    refresh_ran = crossing
+                    if shared:
+                        if st["rot"] != (1 if crossing else 0):
+                            self.fail("clock %d %s the boundary %s but %d rotation(s) were elected" % (
+                                t, "reaches" if crossing else "is before", exp_next, st["rot"]), k)
+                        if crossing:
+                            for q, p in pending.items():
+                                if q != th:
+                                    p["dirty"] = True
+                                    if p["stage"] == 1 and rnd(rot, t) > rnd(rot, p["t"]):
+                                        p["overtaken"] = t
                     if crossing:
-                        late = None
+                        exp_next = rnd(rot, t) + PER[rot]
+                    if kind == "park" and st.get("parked"):
+                        if not crossing:
+                            self.fail("a thread reached the rotation path without crossing a boundary", k)
+                        pending[th] = {"k": k, "t": t, "buf": buf, "dirty": not clean, "nondecr": nondecr, "stage": 1}
+                    else:
+                        if kind in ("park", "park0") and crossing and shared:
+                            self.fail("a boundary-crossing make_writer did not pass through the rotation path", k)
+                        completes.append((t, buf, th, clean, nondecr, k))
+                        refresh_ran = crossing
+                        if crossing:
+                            late = None
             elif kind == "rel":
                 th = op[1] % max(1, case["threads"])
                 if th in pending:
                     p = pending.pop(th)
-                    completes.append((p["t"], p["buf"], th, not p["dirty"] and not pending, p["nondecr"], p["k"]))
-                    refresh_ran = True
-                    late = {"t_old": p["t"], "t_new": p["overtaken"]} if p.get("overtaken") is not None else None
-                    if shared and st["rot"] != 0:
-                        self.fail("releasing a parked rotation elected another rotation", k)
+                    others1 = [x for x in pending.values() if x["stage"] == 1]
+                    if p["stage"] == 1:
+                        completes.append((p["t"], p["buf"], th, not p["dirty"] and not pending, p["nondecr"], p["k"]))
+                        # a rotation overtaken by a later period's election is abandoned: there is nothing of its own to
+                        # swap in any more (next_date has moved on), so nothing may be created, removed or swapped now
+                        refresh_ran = exp_next == rnd(rot, p["t"]) + PER[rot]
+                        late = {"t_old": p["t"], "t_new": p["overtaken"]} if p.get("overtaken") is not None else None
+                        if shared and st["rot"] != 0:
+                            self.fail("releasing a parked rotation elected another rotation", k)
+                    else:
+                        # the compare_exchange on the boundary value loaded before the preemption: it succeeds exactly
+                        # when no rotation has been elected since
+                        wins = exp_next == p["n0"]
+                        if st["rot"] != (1 if wins else 0):
+                            self.fail("boundary %s was loaded before a preemption; %s; the resumed compare_exchange elected %d rotation(s), expected %d" % (
+                                p["n0"], "nothing rotated meanwhile" if wins else "another thread rotated meanwhile (next_date is %s now)" % exp_next,
+                                st["rot"], 1 if wins else 0), k)
+                        if wins:
+                            for x in pending.values():
+                                x["dirty"] = True
+                                if x["stage"] == 1 and rnd(rot, p["t"]) > rnd(rot, x["t"]):
+                                    x["overtaken"] = p["t"]
+                            exp_next = rnd(rot, p["t"]) + PER[rot]
+                            refresh_ran = True
+                            late = None
+                            completes.append((p["t"], p["buf"], th, not p["dirty"] and not others1, p["nondecr"], p["k"]))
+                        else:
+                            completes.append((p["t"], p["buf"], th, False, p["nondecr"], p["k"]))
             # ---- contents: exactly once, whole, at the end of exactly one file
             land = None
             expect_changed = {}
@@ -561,6 +621,273 @@ def _split(tail, bufs):
     return out
 
 
+
+# ------------------------------------------------------------------------------------------------
+# volume path: every period boundary of long stretches of clock readings, implementation (h_rolling sweep)
+# against the model extracted to OCaml (ocaml/c16), plus the Python oracle on the implementation's output
+
+OCAML_DIR = os.path.join(vlib.VERIF, "ocaml", "c16")
+SWEEP_CHUNK = 500       # boundaries per appender (keeps the model's ghost lists short)
+
+
+def build_ocaml_model(ctx):
+    """coqc extract.v (against the current RollingModel.vo) + ocamlopt, cached by content hash.  -> (path|None, log)"""
+    rc, out = vlib.coq_make(["theories/Appender/RollingModel.vo"])
+    if rc != 0:
+        return None, "coq make RollingModel.vo: " + vlib.last_error(out)
+    h = hashlib.sha1()
+    for p in [os.path.join(vlib.COQ, "theories", "Appender", "RollingModel.v"), os.path.join(vlib.COQ, "theories", "Time", "Civil.v"),
+              os.path.join(OCAML_DIR, "extract.v"), os.path.join(OCAML_DIR, "main.ml")]:
+        h.update(open(p, "rb").read())
+    key = h.hexdigest()[:16]
+    d = os.path.join(vlib.CACHE, "ocaml-c16-" + ctx.repo_key, key)
+    exe = os.path.join(d, "c16_model")
+    if os.path.exists(exe):
+        return exe, "cached"
+    with vlib.flock("ocaml-c16-" + ctx.repo_key):
+        if os.path.exists(exe):
+            return exe, "cached"
+        tmp = d + ".tmp%d" % os.getpid()
+        shutil.rmtree(tmp, ignore_errors=True)
+        os.makedirs(tmp)
+        for f in ("extract.v", "main.ml"):
+            shutil.copyfile(os.path.join(OCAML_DIR, f), os.path.join(tmp, f))
+        rc, out = vlib.sh(["coqc", "-noglob"] + vlib.COQ_FLAGS + ["extract.v"], 300, cwd=tmp)
+        if rc != 0:
+            return None, "extraction: " + vlib.last_error(out)
+        rc, out = vlib.sh(["ocamlfind", "ocamlopt", "-O3", "-unsafe", "-inline", "200", "rolling_model.mli", "rolling_model.ml", "main.ml",
+                           "-o", "c16_model"], 300, cwd=tmp)
+        if rc != 0:
+            return None, "ocamlopt: " + vlib.last_error(out)
+        shutil.rmtree(d, ignore_errors=True)
+        os.makedirs(os.path.dirname(d), exist_ok=True)
+        os.replace(tmp, d)
+        olds = sorted(glob.glob(os.path.join(os.path.dirname(d), "*")), key=os.path.getmtime)
+        for o in olds[:-3]:
+            shutil.rmtree(o, ignore_errors=True)
+    return exe, "built"
+
+
+def desc_line(d):
+    return "B %s %s %s %s %d %d %d %d" % (d["rot"], "-" if d["max"] is None else d["max"], d["prefix"] or "-", d["suffix"] or "-",
+                                          d["t0"], d["first"], d["step"], d["count"])
+
+
+def sweep_stretch(rng, rot, start, nb, out, step_periods=1, mx=1, fixed=None):
+    """descriptors covering the `nb` boundaries after `start` (every `step_periods`-th), in chunks"""
+    P = PER[rot]
+    b = (max(0, start) // P + 1) * P          # clocks >= 0 only: pre-1970 readings are outside the property
+    left = nb
+    while left > 0:
+        n = min(left, SWEEP_CHUNK if mx == 1 else 30)
+        pf, sf = fixed if fixed is not None else (rng.choice([None, "app", "a-b", "2024"]), rng.choice([None, "log", "txt.gz"]))
+        t0 = b - 1 - rng.choice([0, 0, 1, rng.randint(0, P - 1)])
+        if t0 < 0 or b - 1 < t0:
+            t0 = b - 1
+        out.append({"rot": rot, "max": mx, "prefix": pf, "suffix": sf, "t0": t0, "first": b, "step": P * step_periods, "count": n})
+        b += n * P * step_periods
+        left -= n
+
+
+def gen_sweep(ctx):
+    """quick: every day boundary of 1970..2370, every hour of ~1.5 years of windows, every minute of ~14 days;
+    thorough: every day of 400 years, every hour of 1970..2070 and of windows up to year 8000, every minute of ~400 days."""
+    rng = ctx.rng
+    th = ctx.thorough()
+    ds = []
+    day = 86400
+    # daily: every boundary of 400 years
+    sweep_stretch(rng, "d", 0, 146100, ds)
+    # around the late anchors too (years 4000, 8000)
+    for a in (ts(4000, 1, 1), ts(7999, 1, 1)):
+        sweep_stretch(rng, "d", a, 800 if not th else 3000, ds)
+    # hourly
+    if th:
+        sweep_stretch(rng, "h", 0, 24 * 36525, ds)                      # 1970 .. 2070, every hour
+    wins = [ts(1999, 12, 25), ts(2000, 2, 20), ts(2023, 12, 25), ts(2024, 2, 22), ts(2038, 1, 10), ts(2100, 2, 20), ts(2400, 2, 25), ts(4000, 2, 25)]
+    for a in wins:
+        sweep_stretch(rng, "h", a, 24 * (20 if not th else 120), ds)
+    for _ in range(6 if not th else 40):
+        sweep_stretch(rng, "h", rng.randint(0, TMAX - 400 * day), 24 * 30, ds)
+    # minutely
+    mdays = [ts(1999, 12, 31), ts(2000, 2, 28), ts(2000, 2, 29), ts(2024, 2, 29), ts(2024, 12, 31), ts(2100, 2, 28), ts(2038, 1, 19), 0]
+    for a in mdays:
+        sweep_stretch(rng, "m", a - 3600, 1440 + 120, ds)
+    for _ in range(4 if not th else 390):
+        sweep_stretch(rng, "m", rng.randint(0, TMAX - 2 * day), 1440, ds)
+    # multi-period jumps (every k-th boundary) and no-limit chunks (files accumulate)
+    for _ in range(30 if not th else 200):
+        rot = rng.choice(["m", "h", "d"])
+        sweep_stretch(rng, rot, rng.randint(0, TMAX - 60000 * PER[rot]), rng.randint(50, 400), ds, step_periods=rng.randint(2, 50))
+    for _ in range(30 if not th else 200):
+        rot = rng.choice(["m", "h", "d"])
+        sweep_stretch(rng, rot, clamp(rng.choice(ANCHORS) - rng.randint(0, 20) * PER[rot]), 30, ds, step_periods=rng.choice([1, 1, 1, 2, 7]), mx=None)
+    # never: one file whatever the clock does
+    for _ in range(3):
+        ds.append({"rot": "n", "max": rng.choice([None, 1]), "prefix": rng.choice(["only", "x"]), "suffix": rng.choice([None, "log"]),
+                   "t0": rng.choice(ANCHORS), "first": rng.randint(1, 10 ** 9), "step": rng.randint(1, 10 ** 7), "count": 50})
+    return ds
+
+
+def sweep_oracle(rep, ds, path, prof, limit=5):
+    """the property, on the implementation's own output: after a write at clock t (clocks are non-decreasing inside a
+    descriptor) the buffer is in the file named for t's period (one more byte there), nothing else changed, and with
+    max_log_files = 1 that file is the only one.  Returns (#writes checked, #violations)."""
+    nviol = 0
+    nw = 0
+    it = iter(ds)
+    d = None
+    files = {}
+    first = False
+    cur = None
+    with open(path, "r", errors="replace") as f:
+        for line in f:
+            if line.startswith("#"):
+                d = next(it, None)
+                if d is None or line[2:].strip() != desc_line(d):
+                    rep.tie("sweep-output-shape:" + prof, False, "descriptor line out of step: %r" % line[:120])
+                    return nw, nviol
+                files = {}
+                first = True
+                cur = None
+                continue
+            if line.startswith("!"):
+                nviol += 1
+                if nviol <= limit:
+                    rep.violation("volume run: the appender failed: %s" % line.strip()[:200], {"descriptor": d, "sweep": desc_line(d)})
+                continue
+            sp = line.find(" ")
+            t = int(line[:sp])
+            got = line[sp + 1:-1]
+            name = pname(d, t) if d["rot"] != "n" else pname(d, d["t0"])
+            if first:
+                files = {name: 0}
+                first = False
+            else:
+                nw += 1
+                if d["max"] == 1 and name != cur:
+                    files = {}
+                files[name] = files.get(name, 0) + 1
+            cur = name
+            want = ",".join("%s:%d" % kv for kv in sorted(files.items()))
+            if got != want:
+                nviol += 1
+                if nviol <= limit:
+                    rep.violation("volume run: after the write at clock %d the directory is %r; the property demands %r (the byte in the file of the write's period%s)" % (
+                        t, got[:200], want[:200], ", which is the only log file left" if d["max"] == 1 else ""),
+                        {"descriptor": d, "sweep": desc_line(d), "clock": t, "observed": got[:400], "expected": want[:400]})
+                # resynchronise on what the implementation has, so that one defect is one report per descriptor
+                try:
+                    files = {kv.rsplit(":", 1)[0]: int(kv.rsplit(":", 1)[1]) for kv in got.split(",") if kv}
+                except ValueError:
+                    pass
+    return nw, nviol
+
+
+def run_sweep(ctx, rep, bins):
+    model_exe, mlog = build_ocaml_model(ctx)
+    ctx.log("extracted model: %s" % mlog)
+    if model_exe is None:
+        rep.tie("build:extracted-model", False, mlog)
+        return
+    ds = gen_sweep(ctx)
+    nb = sum(d["count"] for d in ds)
+    for d in ds:
+        rep.count("sweep:boundaries:" + d["rot"], d["count"])
+        rep.count("sweep:descriptors:max=%s" % d["max"])
+    nsh = max(2, min(vlib.NCPU, 12))
+    # balance by boundary count
+    order = sorted(range(len(ds)), key=lambda i: -ds[i]["count"])
+    shards = [[] for _ in range(nsh)]
+    load = [0] * nsh
+    for i in order:
+        k = load.index(min(load))
+        shards[k].append(i)
+        load[k] += ds[i]["count"]
+    shards = [sorted(sh) for sh in shards if sh]
+    work = os.path.join(ctx.work, "sweep")
+    shutil.rmtree(work, ignore_errors=True)
+    os.makedirs(work)
+
+    def model_one(k):
+        inp = "\n".join(desc_line(ds[i]) for i in shards[k]) + "\n"
+        return vlib.sh([model_exe, os.path.join(work, "model%d.txt" % k)], 1500, input=inp)
+
+    with ThreadPoolExecutor(max_workers=len(shards)) as ex:
+        mres = list(ex.map(model_one, range(len(shards))))
+    bad = [vlib.last_error(o) for rc, o in mres if rc != 0]
+    if bad:
+        rep.tie("run:extracted-model", False, bad[0])
+        return
+    for prof, binpath in bins:
+        def impl_one(k):
+            inp = "\n".join(desc_line(ds[i]) for i in shards[k]) + "\n"
+            return run_bin(binpath, ["sweep", os.path.join(work, "dirs%d" % k), os.path.join(work, "impl-%s%d.txt" % (prof, k))], input=inp, timeout=1500)
+        for k in range(len(shards)):
+            os.makedirs(os.path.join(work, "dirs%d" % k), exist_ok=True)
+        with ThreadPoolExecutor(max_workers=len(shards)) as ex:
+            ires = list(ex.map(impl_one, range(len(shards))))
+        bad = [vlib.last_error(o) for rc, o in ires if rc != 0]
+        if bad:
+            rep.tie("run:h_rolling-sweep:" + prof, False, bad[0])
+            continue
+        first = None
+        ndiff = 0
+        nwrites = 0
+        nviol = 0
+        for k in range(len(shards)):
+            ip, mp = os.path.join(work, "impl-%s%d.txt" % (prof, k)), os.path.join(work, "model%d.txt" % k)
+            same = open(ip, "rb").read() == open(mp, "rb").read()
+            if not same:
+                dcur = None
+                with open(ip, errors="replace") as fi, open(mp, errors="replace") as fm:
+                    for li, lm in zip(fi, fm):
+                        if li.startswith("#"):
+                            dcur = li[2:].strip()
+                        if li != lm:
+                            ndiff += 1
+                            if first is None:
+                                first = {"sweep": dcur, "impl": li.strip()[:300], "model": lm.strip()[:300]}
+            w, v = sweep_oracle(rep, [ds[i] for i in shards[k]], ip, prof, limit=max(0, 3 - nviol))
+            nwrites += w
+            nviol += v
+        rep.evaluations += nwrites
+        rep.traces_validated += len(ds)
+        rep.count("sweep:writes:" + prof, nwrites)
+        rep.tie("correspondence:extracted-model-vs-impl:" + prof, first is None,
+                "%d lines differ over %d boundaries (%d descriptors)" % (ndiff, nb, len(ds)), first)
+        ctx.log("%s: volume run over %d boundaries (%d writes): %d differing lines, %d oracle violations" % (prof, nb, nwrites, ndiff, nviol))
+    # the extraction itself against the kernel's evaluation of the same model, on a few short descriptors
+    sub = [d for d in ds if d["count"] <= 60][:3] + [dict(ds[0], count=12), dict(ds[-1], count=8)]
+    try:
+        terms = []
+        for j, d in enumerate(sub):
+            ws = []
+            for i in range(d["count"]):
+                b = d["first"] + i * d["step"]
+                ws += ["((%d)%%Z, [120%%N])" % (b - 1), "((%d)%%Z, [121%%N])" % b]
+            terms.append(("v%d" % j, "let c := %s in let s0 := init c [] 0%%N (%d)%%Z in map (map (fun x => (fst (fst x), N.of_nat (List.length (snd (fst x)))))) (observe s0 :: obs_trace_x c s0 [%s])"
+                          % (coq_cfg(d, True), d["t0"], "; ".join(ws))))
+        res = coq_eval(ctx, "From Coq Require Import ZArith NArith List String.\nFrom TV Require Import Appender.RollingModel.\nImport ListNotations.\n", terms, tag="sweepsub")
+        inp = "\n".join(desc_line(d) for d in sub) + "\n"
+        outp = os.path.join(work, "model-sub.txt")
+        rc, o = vlib.sh([model_exe, outp], 300, input=inp)
+        blocks = []
+        for line in open(outp):
+            if line.startswith("#"):
+                blocks.append([])
+            else:
+                blocks[-1].append(line.split(" ", 1)[1].strip())
+        badx = None
+        for j, d in enumerate(sub):
+            kern = [",".join("%s:%d" % (n, sz) for n, sz in sorted(l)) for l in res["v%d" % j]]
+            if kern != blocks[j] and badx is None:
+                badx = {"sweep": desc_line(d), "kernel": kern[:4], "extracted": blocks[j][:4]}
+        rep.tie("extraction-faithful", rc == 0 and badx is None, "vm_compute vs extracted OCaml on %d descriptors" % len(sub), badx)
+    except Exception as ex:
+        rep.tie("extraction-faithful", False, str(ex)[:300])
+    shutil.rmtree(work, ignore_errors=True)
+
 # ------------------------------------------------------------------------------------------------
 
 def run_cases(ctx, binpath, cases, gap_ms, tag, nproc=None):
@@ -609,11 +936,13 @@ def probe_fs(ctx, binpath):
     return (max(steps) if steps else None), info
 
 
-def load_corpus(ctx):
+def load_corpus(ctx, yield0=False):
     d = os.path.join(vlib.VERIF, "corpus", "C16")
     out = []
     if os.path.isdir(d):
         for f in sorted(os.listdir(d)):
+            if "yield0" in f and not yield0:
+                continue            # needs hook H1b (yield point 0) in the tree under test
             if f.endswith(".json"):
                 c = json.load(open(os.path.join(d, f)))
                 for x in (c if isinstance(c, list) else [c]):
@@ -675,7 +1004,9 @@ def run(ctx):
     gen_if_changed(os.path.join(vlib.COQ, "gen", "Gen_rolling.v"), text)
     rep.tie("translator:Gen_rolling", not unrec, "; ".join(unrec[:4]), unrec[:1] or None)
     recheck = "Definition gen_recheck : bool := true." in text
+    yield0 = "Definition gen_yield0 : bool := true." in text
     rep.extra["make_writer_rechecks_under_write_lock"] = recheck
+    rep.extra["hook_yield_point_0_present"] = yield0
     # ---- leg A
     rep.proof = coq_prove(ctx, "C16", ["theories/Properties/C16.vo"])
     # ---- implementation
@@ -700,11 +1031,12 @@ def run(ctx):
     ctx.log("created() granularity %.2f ms -> gap %.1f ms" % (gran / 1e6, gap_ms))
 
     rng = ctx.rng
-    nx, ns, nr, nm = (110, 110, 40, 10) if not ctx.thorough() else (500, 500, 200, 30)
-    cases = load_corpus(ctx)
+    nx, ns, nr, nm = (150, 150, 50, 10) if not ctx.thorough() else (600, 600, 250, 30)
+    cases = load_corpus(ctx, yield0)
     ncorp = len(cases)
     cases += [gen_case_x(rng, "x%d" % i) for i in range(nx)]
-    cases += [gen_case_s(rng, "s%d" % i, template="overlap" if i % 4 == 0 else None) for i in range(ns)]
+    cases += [gen_case_s(rng, "s%d" % i, template="overlap" if i % 4 == 0 else ("casrace" if (yield0 and i % 4 == 2) else None), yield0=yield0)
+              for i in range(ns)]
     cases += [gen_case_race(rng, "r%d" % i) for i in range(nr)]
     cases += [gen_malformed(rng, "bad%d" % i) for i in range(nm)]
     by_id = {c["id"]: c for c in cases}
@@ -758,12 +1090,36 @@ def run(ctx):
                 P = PER[c["rot"]]
                 nxt = rnd(c["rot"], c["t0"]) + P
                 cross = jumps = 0
+                hi = prev = c["t0"]
                 for op in c["ops"]:
-                    if op[0] in ("w", "park", "race") and op[2] >= nxt:
+                    if op[0] not in ("w", "park", "park0", "race"):
+                        continue
+                    t = op[2]
+                    # what kind of clock step this is (relative to the boundary the appender is waiting for)
+                    if t == nxt:
+                        rep.count("clock:exactly-on-boundary")
+                    elif t == nxt - 1:
+                        rep.count("clock:boundary-1s")
+                    elif t == nxt + 1:
+                        rep.count("clock:boundary+1s")
+                    if t < hi:
+                        rep.count("clock:step-back")
+                    elif t == prev:
+                        rep.count("clock:standing-still")
+                    d0, d1 = EPOCH + datetime.timedelta(seconds=prev), EPOCH + datetime.timedelta(seconds=t)
+                    if t > prev and (d0.year, d0.month) != (d1.year, d1.month):
+                        rep.count("clock:crosses-month-end")
+                        if d0.year != d1.year:
+                            rep.count("clock:crosses-year-end")
+                    if (d1.month, d1.day) == (2, 29):
+                        rep.count("clock:on-29-feb")
+                    hi, prev = max(hi, t), t
+                    if t >= nxt:
                         cross += 1
-                        if op[2] >= nxt + P:
+                        if t >= nxt + P:
                             jumps += 1
-                        nxt = rnd(c["rot"], op[2]) + P
+                            rep.count("clock:multi-period-jump")
+                        nxt = rnd(c["rot"], t) + P
                 if cross >= 2 and jumps >= 1:
                     rep.nontrivial.add((prof, c["id"]))
             if c.get("race"):
@@ -780,6 +1136,8 @@ def run(ctx):
         if model is not None:
             rep.tie("correspondence:" + prof, not disagree, "%d of %d cases disagree" % (len(disagree), len(det)), disagree[:1] or None)
         rep.count("F16-observed:" + prof, f16_seen)
+    # ---- volume path
+    run_sweep(ctx, rep, bins)
     rep.extra["corpus_cases"] = ncorp
     rep.samples = [{"id": c["id"], "rot": c["rot"], "prefix": c["prefix"], "suffix": c["suffix"], "max": c["max"], "iface": c["iface"],
                     "t0": c["t0"], "ops": c["ops"][:6]} for c in cases[ncorp:ncorp + 2] + [x for x in cases if x["id"] == "s0"]]
